@@ -67,6 +67,12 @@ def ctxSpreads (s : SchemaD) (fx : Fixes) (P : AL String) : CTX ⟨s, fx, [.poss
   J t := t.directive = none
   Inv st := st.rs.pfsTypes = P
   bad n t := badSpreadV s fx P n t.view
+  qskip _ _ := false
+  qskipE _ _ _ _ h := by cases h
+  qskip_fine _ _ h := by cases h
+  qskip_ctx _ _ h := by cases h
+  qskip_only _ _ h := by cases h
+  qskip_sub _ _ h := by cases h
   F _ _ := 0
   G _ _ := 0
   restore n x h := tiLeave_tiEnter s n x (fun d e => h (by rw [e]; rfl))
@@ -82,10 +88,10 @@ def ctxSpreads (s : SchemaD) (fx : Fixes) (P : AL String) : CTX ⟨s, fx, [.poss
     rw [enter_single, pfs_enter s fx n _ _ hn]
     simp only [hi, hb, ↓reduceIte, E, RS.err, List.length_cons]
     exact ⟨trivial, Nat.lt_succ_self _⟩
-  noskip n st hn hi hb := by
+  noskip n st hn hi hb _ := by
     rw [enter_single, pfs_enter s fx n _ _ hn]
     simp only [hi, hb, Bool.false_eq_true, ↓reduceIte]
-  enterE n st hn hi hb := by
+  enterE n st hn hi hb _ := by
     rw [enter_single, pfs_enter s fx n _ _ hn]
     simp only [hi, hb, Bool.false_eq_true, ↓reduceIte, E, Nat.add_zero]
   leaveE n st _ _ := by rw [leave_single, pfsLeave]; rfl
